@@ -5,5 +5,5 @@ V = os.path.dirname(os.path.dirname(os.path.abspath(__file__)))
 p = os.path.join(V, "DESIGN.md")
 s = open(p).read()
 tab = subprocess.run(["python3", os.path.join(V, "tools", "mkseedtable.py")], capture_output=True, text=True).stdout
-s = re.sub(r"<!-- SEEDTABLE:BEGIN -->.*?<!-- SEEDTABLE:END -->", "<!-- SEEDTABLE:BEGIN -->\n" + tab + "<!-- SEEDTABLE:END -->", s, flags=re.S)
+s = re.sub(r"<!-- SEEDTABLE:BEGIN -->.*?<!-- SEEDTABLE:END -->", lambda m: "<!-- SEEDTABLE:BEGIN -->\n" + tab + "<!-- SEEDTABLE:END -->", s, flags=re.S)
 open(p, "w").write(s)
